@@ -13,7 +13,16 @@ from transactron.utils.amaranth_ext.functions import (
     mod_incr, mod_add, sum_value, or_value, and_value, min_value, max_value, mux, switch_value,
 )
 
-from ..comb.engine import comb_check, allv, stratified
+from ..comb.engine import comb_check as _comb_check, allv, stratified
+
+_PART = [0, 1, 0]  # (part, number of parts, running instance index): a shard checks the instances whose index is congruent to its part
+
+
+def comb_check(rec, name, build, vectors, ref, **kw):
+    _PART[2] += 1
+    if _PART[2] % _PART[1] != _PART[0]:
+        return
+    _comb_check(rec, name, build, vectors, ref, **kw)
 
 ENGINE = "combmon"
 EVALUATIONS = "evaluations"
@@ -51,16 +60,16 @@ def build_bits(w):
 
 
 def fam_bits(rec, tier, rnd):
-    for w in range(1, 9 if tier == "quick" else 13):
+    for w in range(1, 9 if tier == "quick" else 15):
         comb_check(rec, f"bits/w{w}", build_bits(w), allv(w), bits_ref(w), family="bit_helpers", exhaustive=True)
-    wide = [9, 12, 16, 17, 24, 31, 32, 33, 48, 64] if tier == "thorough" else [13, 16, 31, 32, 33, 64]
+    wide = list(range(15, 66)) if tier == "thorough" else [13, 16, 31, 32, 33, 64]
     for w in wide:
-        vec = [(v,) for v in stratified(rnd, w, 300 if tier == "quick" else 3000)]
+        vec = [(v,) for v in stratified(rnd, w, 300 if tier == "quick" else 2000)]
         comb_check(rec, f"bits/w{w}", build_bits(w), vec, bits_ref(w), family="bit_helpers")
 
 
 def fam_mod(rec, tier, rnd):
-    maxmod = 17 if tier == "quick" else 40
+    maxmod = 17 if tier == "quick" else 70
     for mod in range(1, maxmod + 1):
         def build(mod=mod):
             x = Signal(range(mod) if mod > 1 else 1)
@@ -69,7 +78,7 @@ def fam_mod(rec, tier, rnd):
             m.d.comb += o.eq(mod_incr(x, mod))
             return m, [x], [o]
         comb_check(rec, f"mod_incr/{mod}", build, [(v,) for v in range(mod)], lambda v, mod=mod: [(v + 1) % mod], family="mod_incr", exhaustive=True)
-        for mi in range(0, 5 if tier == "quick" else 9):
+        for mi in range(0, 5 if tier == "quick" else 13):
             def build2(mod=mod, mi=mi):
                 x = Signal(range(mod) if mod > 1 else 1)
                 inc = Signal(range(mi + 1) if mi > 0 else 1)
@@ -83,7 +92,7 @@ def fam_mod(rec, tier, rnd):
 
 
 def fam_cyclic(rec, tier, rnd):
-    for bits in range(1, 9 if tier == "quick" else 17):
+    for bits in range(1, 9 if tier == "quick" else 33):
         def build(bits=bits):
             aw = max(1, (bits - 1).bit_length())
             st, en = Signal(aw), Signal(aw)
@@ -101,8 +110,8 @@ def fam_cyclic(rec, tier, rnd):
 
 def fam_reduce(rec, tier, rnd):
     for n in range(1, 5):
-        for w in ([2, 3] if tier == "quick" else [1, 2, 3, 4]):
-            if n * w > 12:
+        for w in ([2, 3] if tier == "quick" else [1, 2, 3, 4, 5]):
+            if n * w > (12 if tier == "quick" else 15):
                 continue
             def build(n=n, w=w):
                 xs = [Signal(w, name=f"x{i}") for i in range(n)]
@@ -115,7 +124,7 @@ def fam_reduce(rec, tier, rnd):
                        lambda *v: [sum(v), functools.reduce(operator.or_, v), functools.reduce(operator.and_, v), min(v), max(v)],
                        family="reductions", exhaustive=True)
     # mixed widths
-    for k in range(6 if tier == "quick" else 40):
+    for k in range(6 if tier == "quick" else 200):
         ws = [rnd.randint(1, 7) for _ in range(rnd.randint(2, 5))]
         def build(ws=ws):
             xs = [Signal(w, name=f"x{i}") for i, w in enumerate(ws)]
@@ -139,8 +148,8 @@ def fam_mux(rec, tier, rnd):
             return m, [sel, a, b], [o]
         comb_check(rec, f"mux/w{w}", build, allv(2, w, w), lambda s, a, b: [a if s else b], family="mux", exhaustive=True)
     # switch_value: integer keys, tuple keys, default, first match wins
-    for k in range(8 if tier == "quick" else 60):
-        tw = rnd.randint(1, 4)
+    for k in range(8 if tier == "quick" else 400):
+        tw = rnd.randint(1, 4 if tier == "quick" else 6)
         keys = list(range(1 << tw))
         rnd.shuffle(keys)
         ncase = rnd.randint(1, min(5, len(keys)))
@@ -174,10 +183,13 @@ FAMILIES = {"bits": fam_bits, "mod": fam_mod, "cyclic": fam_cyclic, "reduce": fa
 
 
 def shards(tier, seed):
-    return [{"family": f, "tier": tier, "seed": seed} for f in FAMILIES]
+    parts = 1 if tier == "quick" else 12
+    return [{"family": f, "tier": tier, "seed": seed, "part": p, "parts": parts} for f in FAMILIES for p in range(parts)]
 
 
 def run_shard(spec, rec):
+    _PART[:] = [spec.get("part", 0), spec.get("parts", 1), -1]
+    # the same generator stream in every part of a family, so that the parts partition one instance list
     FAMILIES[spec["family"]](rec, spec["tier"], random.Random(f"C36:{spec['seed']}:{spec['family']}"))
     if len(rec.samples) < 1:
         rec.sample({"family": spec["family"], "instances": sorted(rec.distinct)[:6]})
@@ -187,9 +199,9 @@ def exhaustive(merged, tier):
     return False
 
 
-RULE = ("every helper instantiated for widths 1..8 (1..12 thorough) with ALL input values, moduli 1..17 (1..40) x max_incr 0..4 (0..8) with all "
-        "(value, incr) pairs, cyclic_mask for all (start,end), reductions over 1-4 operands exhaustively, mux/switch_value with integer, tuple, "
-        "duplicate and default keys; widths 13..64 with stratified random + corner inputs; a distinct non-trivial case = one function instance "
+RULE = ("every helper instantiated for widths 1..8 (1..14 thorough) with ALL input values, moduli 1..17 (1..70) x max_incr 0..4 (0..12) with all "
+        "(value, incr) pairs, cyclic_mask for all (start,end) up to 8 (32) bits, reductions over 1-4 operands exhaustively, mux/switch_value with integer, tuple, "
+        "duplicate and default keys; widths 13..64 (every width 15..65 thorough) with stratified random + corner inputs; a distinct non-trivial case = one function instance "
         "(function family, width/modulus/operand configuration); exhaustive for the instances counted in exhaustive_instances")
 ASSUMPTIONS = ["results are truncated to the documented result width before comparison", "pysim evaluates the combinational expression"]
 MINIMA = {"quick": {"evaluations": 8000, "instances": 100, "cond:mod_add": 1000, "cond:bit_helpers": 3000, "cond:switch_value": 30},
